@@ -136,9 +136,13 @@ reg("C01", harness="c01_deflate", level="exploration", deadline=(400, 2400), ext
                "streaming 97/61-byte chunks) x 7 simulated CPU levels over the SHAPES family (~250 designed inputs) and, with a reduced "
                "wrapper set, ALL strings over {00,a,b} up to length 6 (8) and over {00,FF} up to length 10 (12); thorough adds BIG inputs "
                "(32 KiB..200 KB). Every distinct produced stream is decoded by the bit-serial reference AND zlib; both must return the input, "
-               "consume the stream to its last byte and accept the trailer.",
+               "consume the stream to its last byte and accept the trailer. Chunked calls hand every chunk over in its own buffer that is scribbled once "
+               "consumed; a third of the cases puts the level buffer at an odd address. Reuse part: one stream object used for two one-shot calls "
+               "(first call ample or refused at 5 output sizes, text/incompressible/mixed up to 2 MiB, levels x level buffers): the second call must "
+               "decode to its input and equal a fresh object's output byte for byte.",
     level_note="inputs outside the families are not covered; trusted: ref/ref_inflate.c (self-checked against zlib), zlib 1.2.13",
-    runs={"quick": [dict(flavour="sim")], "thorough": [dict(flavour="sim"), dict(flavour="h8k"), dict(flavour="lht")]},
+    runs={"quick": [dict(flavour="sim", part="sweep"), dict(flavour="sim", part="reuse")],
+          "thorough": [dict(flavour="sim", part="sweep"), dict(flavour="sim", part="reuse"), dict(flavour="h8k", part="sweep"), dict(flavour="lht", part="sweep")]},
     rule="case = (input, level, flush, wrapper, hist_bits, table, level_buf, api, cpu level); distinct_nontrivial = number of DISTINCT non-empty "
          "output streams (hash of bytes) that were produced and verified; evaluations = compress calls.")
 
